@@ -134,12 +134,62 @@ def btp_length_facts(source: str) -> dict:
     return {"sites": sites, "from_data": from_data}
 
 
+def de_pv_copy_facts(source: str) -> list:
+    """Copies of a LOCATION TABLE position vector into a packet header (the DE PV of an originated GUC packet, of the LS
+    reply, the DE PV refresh of the GUC / LS-reply forwarders).  `LocationTableEntry.position_vector` is an immutable object
+    that the receive threads REPLACE (`update_position_vector`); a copy whose fields are read through several loads of the
+    attribute can put a vector on the wire that the table never held.
+    For every function of geonet.Router and every `ShortPositionVector(...)` constructor call in it whose arguments derive from
+    a `.position_vector` attribute (directly, or through locals of the function - resolved through ALL their assignments):
+    the number of DISTINCT loads (ast nodes) of such an attribute that feed the arguments.
+    -> [(function, ordinal of the copy site inside the function, loads)]; names of locals are not part of the result."""
+    import ast
+    tree = ast.parse(source)
+    cls = next(n for n in tree.body if isinstance(n, ast.ClassDef) and n.name == "Router")
+    out = []
+    for fn in cls.body:
+        if not isinstance(fn, (ast.FunctionDef, ast.AsyncFunctionDef)):
+            continue
+        assigns = {}
+        for x in ast.walk(fn):
+            if isinstance(x, ast.Assign):
+                for t in x.targets:
+                    if isinstance(t, ast.Name):
+                        assigns.setdefault(t.id, []).append(x.value)
+            elif isinstance(x, (ast.AnnAssign, ast.NamedExpr)) and isinstance(x.target, ast.Name) and x.value is not None:
+                assigns.setdefault(x.target.id, []).append(x.value)
+
+        def loads(expr, seen):
+            found = set()
+            for x in ast.walk(expr):
+                if isinstance(x, ast.Attribute) and x.attr == "position_vector" and isinstance(x.ctx, ast.Load):
+                    found.add((x.lineno, x.col_offset, x.end_lineno, x.end_col_offset))
+                elif isinstance(x, ast.Name) and isinstance(x.ctx, ast.Load) and x.id in assigns and x.id not in seen:
+                    for v in assigns[x.id]:
+                        found |= loads(v, seen | {x.id})
+            return found
+        calls = sorted((c for c in ast.walk(fn) if isinstance(c, ast.Call)
+                        and ((isinstance(c.func, ast.Name) and c.func.id == "ShortPositionVector")
+                             or (isinstance(c.func, ast.Attribute) and c.func.attr == "ShortPositionVector"))),
+                       key=lambda c: (c.lineno, c.col_offset))
+        k = 0
+        for c in calls:
+            found = set()
+            for a in list(c.args) + [kw.value for kw in c.keywords]:
+                found |= loads(a, frozenset())
+            if found:
+                out.append((fn.name, k, len(found)))
+                k += 1
+    return out
+
+
 @gen_lean.register(props=["C02"])
 def gen_wire_facts(force=False):
     if not (force or _c02_run()):
         return
     rx = rx_context_facts(gen_lean.src("geonet/router.py"))
     bt = btp_length_facts(gen_lean.src("btp/router.py"))
+    cp = de_pv_copy_facts(gen_lean.src("geonet/router.py"))
     b = lambda x: "true" if x else "false"
     body = "namespace Generated.WireFacts\n"
     body += "/-- geonet.Router: attributes X with a store `self.X.secured_message = …` (per-reception secured-message context) -/\n"
@@ -151,5 +201,8 @@ def gen_wire_facts(force=False):
     body += "/-- btp.Router.btp_data_request: `GNDataRequest(...)` constructor calls / those with `length = len(<the data= expression>)` -/\n"
     body += f"def btpGnRequestSites : Nat := {bt['sites']}\n"
     body += f"def btpGnLengthFromData : Nat := {bt['from_data']}\n"
+    body += ("/-- geonet.Router: (function, ordinal of the copy site, number of distinct loads of a `.position_vector` attribute that feed\n"
+             "the arguments of that `ShortPositionVector(...)` constructor call) - the copies of a location-table position vector into a header -/\n"
+             "def dePvCopies : List (String × Nat × Nat) := [" + ", ".join(f'("{f}", {k}, {n})' for f, k, n in cp) + "]\n")
     body += "end Generated.WireFacts\n"
     gen_lean.write_if_changed("WireFacts.lean", body)
